@@ -384,6 +384,21 @@ impl Assembler {
     }
 }
 
+#[cfg(feature = "quinn_rs_quinn_verif")]
+impl Assembler {
+    /// (bytes_read, ordered mode, buffered chunk intervals in heap order) for the `streams` executor
+    pub(super) fn verif_view(&self) -> (u64, bool, Vec<(u64, u64)>) {
+        (
+            self.bytes_read,
+            self.state.is_ordered(),
+            self.data
+                .iter()
+                .map(|b| (b.offset, b.offset + b.bytes.len() as u64))
+                .collect(),
+        )
+    }
+}
+
 #[cfg(test)]
 mod test {
     use super::*;
